@@ -1412,7 +1412,12 @@ class Frame(object):
         if d is not None and all(isinstance(v, Const) and isinstance(v.value, bool) for v in vals if self.truth(v) is not None):
             return Const(d)          # (as a value `x or <truthy object>` is x-or-the-object, not True)
         op = ' or ' if isinstance(node.op, ast.Or) else ' and '
-        r = Sym('(%s)' % op.join(render(v) for v in vals))
+        k = 0
+        while k < len(vals) - 1 and self.truth(vals[k]) is not None:
+            k += 1          # leading operands of known (neutral) truth do not contribute to the value: `False or x` is x
+        if k and len(vals) - k == 1:
+            return vals[k]
+        r = Sym('(%s)' % op.join(render(v) for v in vals[k:]))
         r.skel = self.cond_skel(node, st)
         return r
 
